@@ -66,7 +66,7 @@ func c17Body(p c17Params) func(x *vsched.Exec) {
 				smf.RuleOp{Verb: 'C', Kind: 'F', ID: 1, MInfo: -1}, smf.RuleOp{Verb: 'C', Kind: 'U', ID: 1, MInfo: -1},
 				smf.RuleOp{Verb: 'C', Kind: 'P', ID: 1, FAR: 1, URRs: []uint32{1}, MInfo: -1}))
 		})
-		for _, m := range w.replies()[0] {
+		for _, m := range w.repliesWait(0, 2)[0] {
 			if f, _, ok := m.FSEID(); ok && m.Type == smf.MEstRsp {
 				up = f
 			}
@@ -137,61 +137,62 @@ func c17Check(x *vsched.Exec, r vsched.Result) []vsched.Finding {
 	if w == nil || r.Truncated || r.Diverged != "" {
 		return nil
 	}
-	var fs []vsched.Finding
-	rep := w.replies()
-	// no notification served twice: each marker appears in at most one Session Report Request (a retransmission
-	// is byte-identical and counted once per distinct sequence number)
-	seen := map[uint64]map[uint32]bool{}
-	for _, m := range rep[0] {
-		if m.Type != smf.MReportReq {
-			continue
-		}
-		for _, u := range m.UsageReports() {
-			if seen[u.Vol[0]] == nil {
-				seen[u.Vol[0]] = map[uint32]bool{}
+	return w.settle(func(rep [3][]*smf.Msg) []vsched.Finding {
+		var fs []vsched.Finding
+		// no notification served twice: each marker appears in at most one Session Report Request (a retransmission
+		// is byte-identical and counted once per distinct sequence number)
+		seen := map[uint64]map[uint32]bool{}
+		for _, m := range rep[0] {
+			if m.Type != smf.MReportReq {
+				continue
 			}
-			seen[u.Vol[0]][m.Seq] = true
+			for _, u := range m.UsageReports() {
+				if seen[u.Vol[0]] == nil {
+					seen[u.Vol[0]] = map[uint32]bool{}
+				}
+				seen[u.Vol[0]][m.Seq] = true
+			}
 		}
-	}
-	for mk, seqs := range seen {
-		if len(seqs) > 1 {
-			fs = append(fs, vsched.Finding{Sig: "notification-served-twice", What: fmt.Sprintf("the usage report with marker %#x was forwarded in %d different Session Report Requests", mk, len(seqs))})
+		for mk, seqs := range seen {
+			if len(seqs) > 1 {
+				fs = append(fs, vsched.Finding{Sig: "notification-served-twice", What: fmt.Sprintf("the usage report with marker %#x was forwarded in %d different Session Report Requests", mk, len(seqs))})
+			}
 		}
-	}
-	if len(r.Panics) > 0 || r.Deadlock != "" {
+		if len(r.Panics) > 0 || r.Deadlock != "" {
+			return fs
+		}
+		if p.Stop {
+			if _, ok := x.V["stopped"]; ok {
+				if r.Left > 0 {
+					fs = append(fs, vsched.Finding{Sig: "stop-leaves-threads", What: fmt.Sprintf("after Stop %d thread(s) of the UPF have not terminated: %v", r.Left, r.Idle)})
+				}
+				if r.Armed > 0 {
+					fs = append(fs, vsched.Finding{Sig: "stop-leaves-timers", What: fmt.Sprintf("%d transaction timer(s) still armed after the server stopped", r.Armed)})
+				}
+			}
+		} else {
+			// without Stop every accepted notification must have been served exactly once
+			for k := 1; k <= p.Producers; k++ {
+				if _, acc := x.V[fmt.Sprintf("accepted-%d", k)]; acc && len(seen[0x7700+uint64(k)]) != 1 {
+					fs = append(fs, vsched.Finding{Sig: "notification-not-served", What: fmt.Sprintf("the notification of producer %d was accepted but forwarded %d times", k, len(seen[0x7700+uint64(k)]))})
+				}
+			}
+			hb := countType(rep[1], smf.MHeartbeatRsp)
+			mods := countType(rep[0], smf.MModRsp)
+			wantHB, wantMods := 0, 0
+			if p.Peers >= 1 {
+				wantMods = 2
+			}
+			if p.Peers >= 2 || p.Rsp {
+				wantHB = 1
+			}
+			if hb != wantHB || mods != wantMods {
+				fs = append(fs, vsched.Finding{Sig: "request-unanswered", What: fmt.Sprintf("heartbeat responses %d (want 1), modification responses %d (want 2: original and the re-sent copy)", hb, mods)})
+			}
+		}
+		x.V["outcome"] = fmt.Sprintf("reports=%d mods=%d hb=%d left=%d armed=%d", len(seen), countType(rep[0], smf.MModRsp), countType(rep[1], smf.MHeartbeatRsp), r.Left, r.Armed)
 		return fs
-	}
-	if p.Stop {
-		if _, ok := x.V["stopped"]; ok {
-			if r.Left > 0 {
-				fs = append(fs, vsched.Finding{Sig: "stop-leaves-threads", What: fmt.Sprintf("after Stop %d thread(s) of the UPF have not terminated: %v", r.Left, r.Idle)})
-			}
-			if r.Armed > 0 {
-				fs = append(fs, vsched.Finding{Sig: "stop-leaves-timers", What: fmt.Sprintf("%d transaction timer(s) still armed after the server stopped", r.Armed)})
-			}
-		}
-	} else {
-		// without Stop every accepted notification must have been served exactly once
-		for k := 1; k <= p.Producers; k++ {
-			if _, acc := x.V[fmt.Sprintf("accepted-%d", k)]; acc && len(seen[0x7700+uint64(k)]) != 1 {
-				fs = append(fs, vsched.Finding{Sig: "notification-not-served", What: fmt.Sprintf("the notification of producer %d was accepted but forwarded %d times", k, len(seen[0x7700+uint64(k)]))})
-			}
-		}
-		hb := countType(rep[1], smf.MHeartbeatRsp)
-		mods := countType(rep[0], smf.MModRsp)
-		wantHB, wantMods := 0, 0
-		if p.Peers >= 1 {
-			wantMods = 2
-		}
-		if p.Peers >= 2 || p.Rsp {
-			wantHB = 1
-		}
-		if hb != wantHB || mods != wantMods {
-			fs = append(fs, vsched.Finding{Sig: "request-unanswered", What: fmt.Sprintf("heartbeat responses %d (want 1), modification responses %d (want 2: original and the re-sent copy)", hb, mods)})
-		}
-	}
-	x.V["outcome"] = fmt.Sprintf("reports=%d mods=%d hb=%d left=%d armed=%d", len(seen), countType(rep[0], smf.MModRsp), countType(rep[1], smf.MHeartbeatRsp), r.Left, r.Armed)
-	return fs
+	})
 }
 
 func c17Scenarios(tier string) []struct {
@@ -311,24 +312,25 @@ func c17IngressCheck(x *vsched.Exec, r vsched.Result) []vsched.Finding {
 		return nil
 	}
 	n := x.V["n"].(int)
-	rep := w.repliesWait(0, n)
-	got := map[uint32]int{}
-	for _, m := range rep[0] {
-		if m.Type == smf.MHeartbeatRsp {
-			got[m.Seq]++
+	return w.settle(func(rep [3][]*smf.Msg) []vsched.Finding {
+		got := map[uint32]int{}
+		for _, m := range rep[0] {
+			if m.Type == smf.MHeartbeatRsp {
+				got[m.Seq]++
+			}
 		}
-	}
-	var fs []vsched.Finding
-	var l []string
-	for k := 0; k < n; k++ {
-		c := got[uint32(1000+k)]
-		l = append(l, fmt.Sprint(c))
-		if c == 0 {
-			fs = append(fs, vsched.Finding{Sig: "request-unanswered:ingress", What: fmt.Sprintf("heartbeat %d of %d sent back to back got no response (responses per request: %v)", k+1, n, got)})
-		} else if c > 1 {
-			fs = append(fs, vsched.Finding{Sig: "request-answered-twice:ingress", What: fmt.Sprintf("heartbeat %d of %d sent back to back got %d responses (responses per request: %v)", k+1, n, c, got)})
+		var fs []vsched.Finding
+		var l []string
+		for k := 0; k < n; k++ {
+			c := got[uint32(1000+k)]
+			l = append(l, fmt.Sprint(c))
+			if c == 0 {
+				fs = append(fs, vsched.Finding{Sig: "request-unanswered:ingress", What: fmt.Sprintf("heartbeat %d of %d sent back to back got no response (responses per request: %v)", k+1, n, got)})
+			} else if c > 1 {
+				fs = append(fs, vsched.Finding{Sig: "request-answered-twice:ingress", What: fmt.Sprintf("heartbeat %d of %d sent back to back got %d responses (responses per request: %v)", k+1, n, c, got)})
+			}
 		}
-	}
-	x.V["outcome"] = fmt.Sprint(l)
-	return fs
+		x.V["outcome"] = fmt.Sprint(l)
+		return fs
+	})
 }
